@@ -147,6 +147,7 @@ fn run(r: &mut Run) -> Result<(), MachineryError> {
     let g = Gamma { seps: seps(), algs, spls: vec![Spl::None, Spl::Hyphen], bws: vec![true, false], indents: vec![("", ""), (">", ""), ("", ">>"), ("\u{4f60}", ">"), ("\x1b[1m>\x1b[0m", ""), ("", "\u{2502}")], crlf: vec![false] };
     text_space(r, "C03/text", &[L, LL, LLL, SP, HY, NL, W], t.pick(4, 6), &g, M_C03, WidthMode::Display, 0)?;
     word_seq_space(r, "C03/word-sequences", M_C03, vec![Alg::Opt(DEFAULT_PEN), Alg::Opt([3, 7, 2, 5, 0])])?;
+    word_seq_long_space(r, "C03/word-sequences-medium", M_C03, vec![Alg::Opt(DEFAULT_PEN), Alg::Opt([3, 7, 2, 5, 0])])?;
     scale::frag_scale(r, "C03/long-periodic", "C03")?;
     scale::text_scale_c03(r, "C03/long-paragraphs")
 }
